@@ -27,6 +27,7 @@ struct Spec { ModelSpec m; int pmode; std::vector<Q4> single; std::vector<Q4> co
 
 struct Results {
     std::vector<double> evals; std::vector<uint64_t> eighash; double ground = 0;
+    std::vector<std::vector<cd>> fops;           // dense images of the stored parts of c+_i, c_i (all i) and one c+_i c_j, computed with the given communicator
     std::vector<std::vector<cd>> tab1;           // per single quadruple: returned table
     std::vector<std::vector<cd>> grid1;          // per single quadruple: term evaluation on the grid (empty if purged / throws)
     std::vector<std::string> err1;
@@ -48,6 +49,20 @@ Results workflow(const Spec& sp, const boost::mpi::communicator& comm) {
         R.eighash.push_back(fnv(M.data(), sizeof(Pomerol::MelemType) * (size_t)M.size(), fnv(ev.data(), sizeof(double) * (size_t)ev.size())));
     }
     R.ground = p.H->getGroundEnergy();
+    {   // field operators computed one by one with THIS communicator (the container computes them with the default one)
+        auto dump = [&](Pomerol::FieldOperator& fo) { std::vector<cd> v; const std::vector<Pomerol::FieldOperatorPart*>& ps = fo.getParts();
+            for (size_t q = 0; q < ps.size(); ++q) { const Pomerol::RowMajorMatrixType& e = ps[q]->getRowMajorValue(); v.push_back(cd((double)e.rows(), (double)e.cols()));
+                CMat d = CMat::Zero(e.rows(), e.cols()); for (int k = 0; k < e.outerSize(); ++k) for (Pomerol::RowMajorMatrixType::InnerIterator it(e, k); it; ++it) d(it.row(), it.col()) = to_cd(it.value());
+                for (long a = 0; a < d.rows(); ++a) for (long b = 0; b < d.cols(); ++b) v.push_back(d(a, b)); }
+            R.fops.push_back(v); };
+        for (int i = 0; i < p.N; ++i) {
+            Pomerol::CreationOperator CX(*p.IC, *p.S, *p.H, (Pomerol::ParticleIndex)i); CX.prepare(); CX.compute(comm); dump(CX);
+            Pomerol::AnnihilationOperator C(*p.IC, *p.S, *p.H, (Pomerol::ParticleIndex)i); C.prepare(); C.compute(comm); dump(C);
+        }
+        Pomerol::QuadraticOperator Q(*p.IC, *p.S, *p.H, (Pomerol::ParticleIndex)0, (Pomerol::ParticleIndex)(p.N - 1)); Q.prepare(); Q.compute(comm); dump(Q);
+        // and the container's operators (default communicator) must be the same matrices
+        for (int i = 0; i < p.N; ++i) { dump(const_cast<Pomerol::CreationOperator&>(p.Ops->getCreationOperator((Pomerol::ParticleIndex)i))); dump(const_cast<Pomerol::AnnihilationOperator&>(p.Ops->getAnnihilationOperator((Pomerol::ParticleIndex)i))); }
+    }
     auto mk = [&](const Q4& q) { return new Pomerol::TwoParticleGF(*p.S, *p.H, p.Ops->getAnnihilationOperator((Pomerol::ParticleIndex)q[0]), p.Ops->getAnnihilationOperator((Pomerol::ParticleIndex)q[1]), p.Ops->getCreationOperator((Pomerol::ParticleIndex)q[2]), p.Ops->getCreationOperator((Pomerol::ParticleIndex)q[3]), *p.DM); };
     for (auto& q : sp.single) {
         std::unique_ptr<Pomerol::TwoParticleGF> X(mk(q)); X->prepare(); R.parts += (long)X->parts.size();
@@ -144,6 +159,12 @@ static void par_run(Ctx& c) {
     ++nchk; if (par.evals.size() != ref.evals.size()) bad("C06:spectrum-size", "eigenvalue count differs from the single-rank run");
     else for (size_t n = 0; n < ref.evals.size(); ++n) { ++nchk; if (!(std::abs(par.evals[n] - ref.evals[n]) <= 1e-10 * (1 + std::abs(ref.evals[n])))) { bad("C06:spectrum-vs-single-rank", "eigenvalue #" + std::to_string(n) + " " + fmt(par.evals[n]) + " vs " + fmt(ref.evals[n])); break; } }
     ++nchk; if (!(std::abs(par.ground - ref.ground) <= 1e-10 * (1 + std::abs(ref.ground)))) bad("C06:ground-energy-vs-single-rank", fmt(par.ground) + " vs " + fmt(ref.ground));
+    // field operators: every rank must hold the same (complete) matrices as a single-rank run
+    ++nchk; if (par.fops.size() != ref.fops.size()) bad("C06:field-operator:count", "number of field operators differs");
+    else for (size_t k = 0; k < ref.fops.size(); ++k) { ++nchk;
+        bool same = par.fops[k].size() == ref.fops[k].size(); double worst = 0;
+        if (same) for (size_t w = 0; w < ref.fops[k].size(); ++w) worst = std::max(worst, std::abs(par.fops[k][w] - ref.fops[k][w]));
+        if (!same || !(worst <= 1e-10)) { bad("C06:field-operator-vs-single-rank:" + pk, "field operator #" + std::to_string(k) + " (c+_i, c_i alternating, then c+_0 c_{N-1}, then the container's operators): stored parts differ from the single-rank computation (max deviation " + fmt(worst) + ", shapes equal: " + std::to_string(same) + ")"); break; } }
     // stand-alone 2PGF: table on the root, terms on every rank when kept
     for (size_t k = 0; k < sp.single.size(); ++k) {
         std::string q = "chi_" + qs(sp.single[k]) + (sp.clear1 ? " clear" : " keep") + (sp.usefreqs1 ? " freqs=" + std::to_string(sp.freqs.size()) : " nofreqs");
